@@ -13,7 +13,7 @@ from vlib import SplitMix
 from streamlib import parse_model_line
 
 PROP = 'C03'
-ALLOC_BOUND_MB = 64 + 32 + 160     # FrameSizeLimit + RecordAllocLimit + slack for decoder tables, zstd window, bufio, pdata
+ALLOC_BOUND_MB = 64 + 32 + 32     # FrameSizeLimit + RecordAllocLimit + slack for decoder tables, zstd window, bufio, pdata
 
 
 def build_c03():
@@ -33,12 +33,21 @@ def leb(v):
     return bytes(out)
 
 
+def uvc_bits(v):
+    """compact varint of the specification as a bit string"""
+    for k, w in ((0, 0), (1, 2), (2, 5), (3, 12), (4, 19), (5, 26), (6, 33), (7, 48)):
+        if v < (1 << w) or (w == 0 and v == 0):
+            return '0' * k + '1' + (format(v, '0%db' % w) if w else '')
+    raise ValueError(v)
+
+
 def mutations(rng, stream, tier, small):
     """yield (kind, bytes)"""
     n = len(stream)
     if small:
-        for i in range(n):                      # every single byte: flip one bit, set 0xff, set 0
-            b = bytearray(stream); b[i] ^= 1 << rng.below(8); yield ('bitflip', bytes(b))
+        for i in range(n):                      # every single byte: every bit flipped (tiny streams) or one, and 0xff
+            for bit in (range(8) if n <= 300 else [rng.below(8)]):
+                b = bytearray(stream); b[i] ^= 1 << bit; yield ('bitflip', bytes(b))
             b = bytearray(stream); b[i] = 0xff; yield ('ff', bytes(b))
     cnt = 60 if tier == 'quick' else 600
     for _ in range(cnt):
@@ -116,17 +125,67 @@ def main():
             root = 'Metrics' if i % 2 == 0 else 'Spans'
             opts = dict(compression=(i // 2) % 2, maxframe=rng.choice([0, 300]), maxdict=rng.choice([0, 200]), flags=rng.choice([0, 1, 4, 5]),
                         descriptor=rng.chance(1, 2), userdata={'k': 'v'} if rng.chance(1, 2) else {})
-            ops = streamlib.gen_history(sch, root, rng, 1 + rng.below(3 if i < 2 else 12))
+            ops = streamlib.gen_history(sch, root, rng, 1 + rng.below(3 if i < 2 else 12), tiny=(i < 2))
             seeds.append(dict(id=f'seed{i}', root=root, opts=opts, ops=ops))
+        # streams written for an OLDER schema (descriptor with fewer oneof alternatives / fields): the
+        # stream's own counts, not the compiled-in ones, bound tags and field masks
+        import copy as _copy, gen_schemas as _gs
+        for i, root in enumerate(('Metrics', 'Spans', 'Metrics')):
+            sh = _copy.deepcopy(sch)
+            for st in sh['structs']:
+                if len(st['fields']) > 2 and (i == 2 or rng.chance(1, 2)):
+                    st['fields'] = st['fields'][:len(st['fields']) - 1 - rng.below(min(3, len(st['fields']) - 1))]
+            rcm, mo = vlib.run_lines(h.model, ['schema shrunk%d %s' % (i, ' '.join(_gs.model_tokens(sh))), f'counts shrunk{i} {h.rootid(root)}'])
+            counts = [int(x) for x in mo[-1].split(',') if x]
+            ops = streamlib.gen_history(sch, root, rng, 1 + rng.below(2), tiny=True)
+            seeds.append(dict(id=f'seed-shrunk{i}', root=root, opts=dict(compression=0, maxframe=0, maxdict=0, flags=0, descriptor=True, userdata={}, schema=counts), ops=ops))
+        # oneof-rich records under schemas that keep only the first c alternatives of every oneof
+        anyv = [['6b31', [1, '61']], ['6b32', [2, True]], ['6b33', [3, '7']], ['6b34', [4, '3ff0000000000000']], ['6b35', [5, [[1, '62']]]],
+                ['6b36', [6, [['6b', [3, '1']]]]], ['6b37', [7, '0102']]]
+        rec = [[[]], ['6d', '', '', '0', [], [], '0', False], ['', [], '0'], ['', '', '', [], '0'], anyv, ['1', '2', [2, '3ff0000000000000'], []]]
+        for c in (3, 4, 5, 6):
+            sh = _copy.deepcopy(sch)
+            for st in sh['structs']:
+                if st['oneof'] and len(st['fields']) > c:
+                    st['fields'] = st['fields'][:c]
+            rcm, mo = vlib.run_lines(h.model, ['schema oneof%d %s' % (c, ' '.join(_gs.model_tokens(sh))), f'counts oneof{c} {h.rootid("Metrics")}'])
+            counts = [int(x) for x in mo[-1].split(',') if x]
+            seeds.append(dict(id=f'seed-oneof{c}', root='Metrics', opts=dict(compression=0, maxframe=0, maxdict=0, flags=0, descriptor=True, userdata={}, schema=counts),
+                              ops=[{'op': 'set', 'v': rec, 'freeze': True}, {'op': 'w'}, {'op': 'f'}]))
         sem = semantic_cases(sch)
         outs, stderr, rc = h.run_go(seeds + sem)
         cases = []
         for c, o in zip(seeds, outs[:len(seeds)]):
             stream = bytes.fromhex(o['stream'])
+            if len(stream) < 10 or o.get('werr') or o.get('panic'):
+                verdict.violation(dict(case=c, werr=o.get('werr'), panic=o.get('panic')), f'{c["id"]}: seed stream could not be written: {o.get("werr") or o.get("panic")}')
+                continue
             small = len(stream) <= (400 if tier == 'quick' else 3000)
             cases.append(dict(id=c['id'] + ':valid', root=c['root'], stream=stream.hex(), kind='valid', compr=c['opts']['compression']))
             for kind, m in mutations(rng.fork(), stream, tier, small):
                 cases.append(dict(id=f'{c["id"]}:{kind}:{len(cases)}', root=c['root'], stream=m.hex(), kind=kind, compr=c['opts']['compression']))
+        # crafted size tables: many sibling columns each within the declared frame size, together far above it
+        for c, o in zip(seeds[:2], outs[:2]):
+            if c['opts']['compression'] != 0:
+                continue
+            stream = bytes.fromhex(o['stream'])
+            hdr_end = o['chunks'][0] + o['chunks'][1]
+            st = sch['structs'][h.rootid(c['root'])]
+            def nchildren(t):
+                if t['k'] == 'prim': return 0
+                if t['k'] == 'array': return 1
+                if t['k'] == 'multimap': return 2
+                return len(sch['structs'][t['id']]['fields'])
+            for S in (20 << 20, 30 << 20, 60 << 20):
+                sizes = [1]
+                for f in st['fields']:
+                    sizes += [S] + [0] * nchildren(f['type'])
+                bits = ''.join(uvc_bits(x) for x in sizes)
+                bits += '0' * (-len(bits) % 8)
+                table = bytes(int(bits[i:i + 8], 2) for i in range(0, len(bits), 8))
+                content = leb(1) + leb(len(table)) + table + b'\x00'
+                frame = bytes([0]) + leb(61 << 20) + content
+                cases.append(dict(id=f'{c["id"]}:sizetable:{S >> 20}', root=c['root'], stream=(stream[:hdr_end] + frame).hex(), kind='crafted-size-table', compr=0))
         for c, o in zip(sem, outs[len(seeds):]):
             cases.append(dict(id=c['id'], root='Metrics', stream=o['stream'], kind='semantic', compr=0, semantic=c['semantic']))
         ncases = len(cases)
@@ -195,7 +254,9 @@ def main():
                 continue
             go_open = r.get('open') == 'ok'
             m_open = m.get('open') == 'ok'
-            limitish = 'limit' in (m.get('end') or '') or 'limit' in (r.get('err') or '').lower() or 'alloc' in (r.get('err') or '').lower() or 'other' in (m.get('end') or '')
+            # N20: the Go reader loads a frame lazily and accepts a frame header that declares more bytes
+            # than the input holds as long as the columns are complete; the model wants the declared bytes
+            limitish = (m.get('end') == 'trunc') or 'limit' in (m.get('end') or '') or 'limit' in (r.get('err') or '').lower() or 'alloc' in (r.get('err') or '').lower() or 'other' in (m.get('end') or '')
             # io.EOF is returned by the Go reader both at the clean end and when a decoder over-reads a
             # column: compare only "clean end in the model => io.EOF in the implementation"
             end_ok = (m.get('end') != 'eos') or (r.get('err') == 'eof')
